@@ -28,8 +28,10 @@ try:
         whats = re.findall(r'  what: (.*)', out)
         results[c] = (p.returncode, fps)
         print('%s %s: exit=%d (%.0fs) %s' % (c, tier, p.returncode, time.time() - t0, 'CAUGHT' if p.returncode == 1 else ('HARNESS-ERROR' if p.returncode == 2 else 'missed')))
-        for f, w in zip(fps, whats):
+        for f, w in list(zip(fps, whats))[:5]:
             print('     ', f[:200]); print('         ', w[:200])
+        if len(fps) > 5:
+            print('      ... %d fingerprints in total' % len(fps))
         if p.returncode == 2:
             print(out[-1500:])
 finally:
